@@ -170,23 +170,49 @@ Open(s, d, req) ==
 \* listener refuses the optimistically chosen id: it answers "na" and KEEPS negotiating on the bytes that
 \* follow (go-multistream Negotiate loop), so a registered acceptor of q is started on a stream the dialer
 \* never asked q for and which the dialer sees fail ("stray").  Modelled as the code behaves; see NoStray.
-Use(s, q) ==
+\* m: HOW the dialer uses the stream.  "wr": writes a line, then reads the echo.  "rd": reads first (with a
+\* deadline): the handshake must complete and the handler start although the dialer wrote nothing; the
+\* handler of the replay is silent until it gets a line, so the read itself ends at its deadline.
+Use(s, q, m) ==
   /\ st[s].ph \in {"lazy", "est"}
+  /\ q # "" => m = "wr"
   /\ LET t == tbl[Other(st[s].d)] IN
      /\ q # "" => (st[s].ph = "lazy" /\ ListenerNegotiate(t, st[s].p) = 0)
      /\ IF st[s].ph = "est"
         THEN /\ UNCHANGED st
-             /\ op' = [name |-> "use", s |-> s, first |-> FALSE, res |-> "ok", p |-> st[s].p, h |-> st[s].h,
+             /\ op' = [name |-> "use", s |-> s, m |-> m, first |-> FALSE, res |-> "ok", p |-> st[s].p, h |-> st[s].h,
                        q |-> "", stray |-> NoH]
         ELSE LET j == ListenerNegotiate(t, st[s].p) IN
              IF j # 0
              THEN /\ st' = [st EXCEPT ![s] = [ph |-> "est", d |-> st[s].d, p |-> st[s].p, h |-> t[j]]]
-                  /\ op' = [name |-> "use", s |-> s, first |-> TRUE, res |-> "ok", p |-> st[s].p, h |-> t[j],
+                  /\ op' = [name |-> "use", s |-> s, m |-> m, first |-> TRUE, res |-> "ok", p |-> st[s].p, h |-> t[j],
                             q |-> "", stray |-> NoH]
              ELSE LET k == IF q = "" THEN 0 ELSE ListenerNegotiate(t, q) IN
                   /\ st' = [st EXCEPT ![s] = Idle]
-                  /\ op' = [name |-> "use", s |-> s, first |-> TRUE, res |-> "fail", p |-> st[s].p, h |-> NoH,
+                  /\ op' = [name |-> "use", s |-> s, m |-> m, first |-> TRUE, res |-> "fail", p |-> st[s].p, h |-> NoH,
                             q |-> q, stray |-> IF k # 0 THEN t[k] ELSE NoH]
+  /\ UNCHANGED <<tbl, K>>
+
+\* Finish: the dialer half-closes ("cw": CloseWrite as its FIRST operation, having written nothing; "wcw":
+\* one line, then CloseWrite) and then reads: streamWrapper.CloseWrite flushes the lazy handshake before the
+\* FIN, so the listener negotiates, the handler runs, sees EOF after the lines written and its answer reaches
+\* the dialer's read; then the stream is closed.  On a refused optimistic id the read fails instead.
+Finish(s, m) ==
+  /\ st[s].ph \in {"lazy", "est"}
+  /\ st' = [st EXCEPT ![s] = Idle]
+  /\ IF st[s].ph = "est"
+     THEN op' = [name |-> "finish", s |-> s, m |-> m, first |-> FALSE, res |-> "ok", p |-> st[s].p, h |-> st[s].h]
+     ELSE LET t == tbl[Other(st[s].d)]
+              j == ListenerNegotiate(t, st[s].p) IN
+          op' = [name |-> "finish", s |-> s, m |-> m, first |-> TRUE, res |-> IF j # 0 THEN "ok" ELSE "fail",
+                 p |-> st[s].p, h |-> IF j # 0 THEN t[j] ELSE NoH]
+  /\ UNCHANGED <<tbl, K>>
+
+\* Reset as the first (or a later) operation: nothing of a lazy handshake is ever sent, no handler starts
+Reset(s) ==
+  /\ st[s].ph \in {"lazy", "est"}
+  /\ st' = [st EXCEPT ![s] = Idle]
+  /\ op' = [name |-> "reset", s |-> s, ph |-> st[s].ph, p |-> st[s].p]
   /\ UNCHANGED <<tbl, K>>
 
 Close(s) ==
@@ -205,7 +231,9 @@ Next == \/ \E x \in Hosts, e \in Entries : Add(x, e)
         \/ \E x \in Hosts : Forget(x)
         \/ Learn
         \/ \E s \in Slots, d \in Hosts, req \in Reqs : Open(s, d, req)
-        \/ \E s \in Slots, q \in Tokens \cup {""} : Use(s, q)
+        \/ \E s \in Slots, q \in Tokens \cup {""}, m \in {"wr", "rd"} : Use(s, q, m)
+        \/ \E s \in Slots, m \in {"cw", "wcw"} : Finish(s, m)
+        \/ \E s \in Slots : Reset(s)
         \/ \E s \in Slots : Close(s)
 
 Spec == Init /\ [][Next]_vars
@@ -247,9 +275,19 @@ OneHandler == [][\A s \in Slots : st[s].ph = "est" /\ st'[s].ph = "est" => st'[s
 \* unestablished; a first use / flushing close of an id nobody accepts runs no handler
 NoCommon ==
   [][/\ (op'.name = "open" /\ Common(tbl[Other(op'.d)], op'.req) = {}) => op'.res \in {"fail", "lazy"} /\ op'.h = NoH
-     /\ (op'.name \in {"use", "close"} /\ st[op'.s].ph = "lazy"
+     /\ (op'.name \in {"use", "close", "finish"} /\ st[op'.s].ph = "lazy"
            /\ ~\E e \in Range(LT(op'.s)) : Accepts(e, st[op'.s].p)) => op'.h = NoH /\ st'[op'.s].ph = "idle"
-     /\ (op'.name \in {"open", "use"} /\ op'.res = "fail") => op'.h = NoH]_vars
+     /\ (op'.name \in {"open", "use", "finish"} /\ op'.res = "fail") => op'.h = NoH
+     /\ (op'.name = "reset" /\ st[op'.s].ph = "lazy") => st'[op'.s].ph = "idle"]_vars
+
+\* FirstOpFree: whatever the dialer's first operation on an opened stream is (write+read, read, half-close
+\* with or without bytes, close), an id the listener accepts at that moment reaches its handler, and the
+\* exchange succeeds; only Reset never starts one
+FirstOpFree ==
+  [][(op'.name \in {"use", "finish", "close"} /\ st[op'.s].ph = "lazy"
+        /\ \E e \in Range(LT(op'.s)) : Accepts(e, st[op'.s].p)) =>
+          /\ op'.h # NoH /\ Accepts(op'.h, st[op'.s].p)
+          /\ op'.name # "close" => op'.res = "ok"]_vars
 
 \* CommonMeansSuccess: with a protocol in common a negotiated open succeeds bound to an id the listener
 \* accepts; it can only be missed through an optimistic choice, and that choice comes from the dialer's
@@ -274,7 +312,7 @@ NoStray == [][op'.name = "use" => op'.stray = NoH]_vars
 
 \* RemovedNeverRuns (model level): whatever serves or is invoked is in the listener's table of that moment
 RemovedNeverRuns ==
-  [][(op'.name \in {"open", "use", "close"} /\ op'.h # NoH /\ ~(op'.name = "use" /\ ~op'.first))
+  [][(op'.name \in {"open", "use", "close", "finish"} /\ op'.h # NoH /\ ~(op'.name \in {"use", "finish"} /\ ~op'.first))
         => op'.h \in Range(tbl[Other(IF op'.name = "open" THEN op'.d ELSE st[op'.s].d)])]_vars
 
 \* vacuity guards (expected to be violated)
